@@ -43,7 +43,7 @@ func vfVersion(name, skeleton string) (string, []int64) {
 // first N is rejected.
 func VerifC19Version(args []string) {
 	opName, ska, skb, nArg := args[0], args[1], args[2], args[3]
-	op := builtinOperators[opName]
+	op, _ := vfBuiltin(opName)
 	vfAssert(op != nil, "operator present")
 	a, ca := vfVersion("a", ska)
 	b, cb := vfVersion("b", skb)
@@ -114,7 +114,7 @@ func VerifC19Version(args []string) {
 //	"length"                     an arbitrary valid length outside 1..4 → rejected; inside → accepted
 //	"types"                      wrong parameter types / counts → error
 func VerifC19Reject(args []string) {
-	op := builtinOperators[args[0]]
+	op, _ := vfBuiltin(args[0])
 	vfAssert(op != nil, "operator present")
 	form := vfSplit(args[1], ':')
 	switch form[0] {
@@ -169,7 +169,7 @@ func VerifC19Reject(args []string) {
 // Concrete table: the operator selects the documented default layout or honours the supplied
 // one and returns UTC Unix seconds; unparsable text and wrong parameters are errors.
 func VerifC19Date(args []string) {
-	op := builtinOperators[args[0]]
+	op, _ := vfBuiltin(args[0])
 	vfAssert(op != nil, "operator present")
 	params := []Value{args[1]}
 	if args[2] != "" {
@@ -191,7 +191,7 @@ func VerifC19Date(args []string) {
 // so the assertion says: for EVERY text the operator parses it with exactly the
 // documented layout and returns that parse's Unix seconds, and fails iff it fails.
 func VerifC19DateSym(args []string) {
-	op := builtinOperators[args[0]]
+	op, _ := vfBuiltin(args[0])
 	vfAssert(op != nil, "operator present")
 	supplied, expected := args[1], args[2]
 	s := vfOpaqueDate("s", expected)
